@@ -281,6 +281,10 @@ const MUTATIONS: &[&str] = &[
     "shared-fragment-var-undeclared", "shared-fragment-var-incompatible",
     // Operation Name Uniqueness is per document, whatever the operation types
     "dup-op-name-cross-kind", "dup-op-name-cross-kind",
+    // the second value given for an argument / input field is type-checked too (commit 7d19234)
+    "dup-arg-bad-second",
+    // subscriptions: response keys are counted (commit a3d3d08)
+    "subscription-same-key-twice",
 ];
 
 fn inject(rng: &mut Rng, s: &Schema, doc: &mut Doc, kind: &str) -> Option<Fault> {
@@ -474,6 +478,63 @@ fn inject(rng: &mut Rng, s: &Schema, doc: &mut Doc, kind: &str) -> Option<Fault>
                 if alias.is_none() { *alias = Some("kx".into()); }
             }
             Some(Fault { rule: "literal_types", what: format!("{}: {} for type {} at {}", a.name, v, a.ty.render(), describe(doc, &id)), site: Site::Slot(id) })
+        }
+        "dup-arg-bad-second" => {
+            let (sl, k) = pick_field(rng, doc, &slots, |sl, sel| typed(sl) && match sel { Sel::Field { name, args, .. } => !args.is_empty() && field_def(s, sl.parent.as_ref().unwrap(), name).is_some(), _ => false })?;
+            let id = sl.id.clone();
+            let (fname, have): (String, Vec<String>) = match &sels_at(doc, &id)[k] { Sel::Field { name, args, .. } => (name.clone(), args.iter().map(|a| a.0.clone()).collect()), _ => unreachable!() };
+            let fd = field_def(s, sl.parent.as_ref().unwrap(), &fname)?.clone();
+            let mut order: Vec<&Arg> = fd.args.iter().filter(|a| have.contains(&a.name)).collect();
+            rng.shuffle(&mut order);
+            for a in order {
+                if let Some(b) = bad_lit(rng, s, &a.ty, 0) {
+                    if let Sel::Field { args, .. } = &mut sels_at_mut(doc, &id)[k] { args.push((a.name.clone(), b.clone())); }
+                    return Some(Fault { rule: "literal_types", what: format!("argument {} given a second time with {} at {}", a.name, b, describe(doc, &id)), site: Site::Slot(id) });
+                }
+            }
+            None
+        }
+        "subscription-same-key-twice" => {
+            // valid: the same root field twice (directly, in an inline fragment, or through a fragment) is one response key
+            let root = s.subscription.clone()?;
+            let i = doc.ops.iter().position(|o| o.kind == "subscription")?;
+            let first = doc.ops[i].sel.iter().find(|x| matches!(x, Sel::Field { .. }))?.clone();
+            let extra = match rng.below(3) {
+                0 => first,
+                1 => Sel::Inline { cond: None, dirs: vec![], sub: vec![first] },
+                _ => {
+                    let n = format!("FS{}", doc.frags.len());
+                    doc.frags.push(Frag { name: n.clone(), cond: root, dirs: vec![], sel: vec![first] });
+                    Sel::Spread { name: n, dirs: vec![] }
+                }
+            };
+            doc.ops[i].sel.push(extra);
+            // not a fault: the reference validator finds no rule violated and nothing may be reported
+            Some(Fault { rule: "none (valid)", what: "the subscription's root field selected a second time".into(), site: Site::Doc })
+        }
+        "var-relax-at-default" => {
+            // valid: `$v: T!` used directly for a non-null argument that has a default value may be declared `$v: T`
+            let mut found: Option<String> = None;
+            for sl in &slots {
+                if !typed(sl) { continue; }
+                for sel in sels_at(doc, &sl.id) {
+                    if let Sel::Field { name, args, .. } = sel {
+                        if let Some(fd) = field_def(s, sl.parent.as_ref().unwrap(), name) {
+                            for (an, av) in args {
+                                if let Some(a) = fd.args.iter().find(|a| &a.name == an) {
+                                    if a.ty.is_nonnull() && a.default.is_some() && av.starts_with('$') { found = Some(av[1..].to_string()); }
+                                }
+                            }
+                        }
+                    }
+                }
+            }
+            let v = found?;
+            // the variable must not be used anywhere else (its other positions might need the non-null type)
+            let text = doc.render();
+            if text.matches(&format!("${}", v)).filter(|_| true).count() != 2 { return None; }
+            for o in doc.ops.iter_mut() { for vd in o.vars.iter_mut() { if vd.name == v && vd.ty.ends_with('!') && vd.default.is_none() { vd.ty.pop(); return Some(Fault { rule: "none (valid)", what: format!("${} declared nullable for a defaulted non-null argument", v), site: Site::Doc }); } } }
+            None
         }
         "dup-var" => {
             let i = (0..doc.ops.len()).filter(|i| !doc.ops[*i].vars.is_empty()).collect::<Vec<_>>();
@@ -697,27 +758,10 @@ fn inject(rng: &mut Rng, s: &Schema, doc: &mut Doc, kind: &str) -> Option<Fault>
 }
 
 /// known-finding classes that explain why the implementation is silent about the fault
-fn classes_of(s: &Schema, doc: &Doc, faults: &[Fault], kinds: &[String]) -> Vec<String> {
-    let (walked, spread) = visited(s, doc, false);   // no fast path any more (commit 762f951)
-    let (reach, spread_all) = visited(s, doc, false);
-    let mut out = BTreeSet::new();
-    for (f, k) in faults.iter().zip(kinds) {
-        match &f.site {
-            Site::Slot(id) => {
-                // the fault sits in list `id` or in a list below it: it is looked at iff `id` is walked
-                if !reach.contains(id) { out.insert("unspread-fragment-unchecked".to_string()); }
-                let _ = &walked;
-            }
-            Site::FragDirs(i) => {
-                let n = &doc.frags[*i].name;
-                if !spread_all.contains(n) { out.insert("unspread-fragment-unchecked".to_string()); }
-                let _ = &spread;
-            }
-            Site::Doc => {}
-        }
-        if k == "undefined-var-in-custom-scalar" { out.insert("variable-inside-custom-scalar-literal-unchecked".to_string()); }
-    }
-    out.into_iter().collect()
+fn classes_of(_s: &Schema, _doc: &Doc, _faults: &[Fault], _kinds: &[String]) -> Vec<String> {
+    // every former blind spot of check is repaired in /repo (commits 762f951, 7d19234, 49e8e28, c67e45e): no document is
+    // given a second, every-position reading any more; every fault has to be answered on the first reading
+    vec![]
 }
 
 // ------------------------------------------------------------------ cheaper case terms
@@ -858,11 +902,11 @@ fn corpus() -> Vec<(&'static str, &'static str, Vec<&'static str>, &'static str)
     const S1: &str = "scalar JSON\nenum E { A B }\ninput In { a: Int b: Int r: String! = \"d\" l: [In!] }\ninput Req { must: Int! opt: Int }\ninterface I { id: ID! self: I }\ninterface J implements I { id: ID! self: I j: Int }\ntype A implements I { id: ID! self: I a(x: Int! = 3, f: Float, ids: [ID!], e: E, i: In, q: Req, j: JSON): Int }\ntype B implements I & J { id: ID! self: I j: Int b: String }\ntype C { c: Int }\nunion U = A | C\nunion V = B | C\ntype Query { i: I j: J a: A u: U v: V n(x: Int!): Int }\ntype Subscription { s: Int t: Int }\ndirective @tag(name: String!) repeatable on FIELD | FRAGMENT_DEFINITION | FRAGMENT_SPREAD | INLINE_FRAGMENT | VARIABLE_DEFINITION | QUERY\ndirective @once(n: Int = 1) on FIELD | QUERY\n";
     vec![
         // known defects
-        (S1, "query Q { a { id } }\nfragment U on A { nonexistent }\n", vec!["unspread-fragment-unchecked"], "unspread fragment is never validated"),
+        (S1, "query Q { a { id } }\nfragment U on A { nonexistent }\n", vec![], "a fragment no operation spreads (not validated before commit c67e45e)"),
         (S1, "query Q { i { ... on I { nonexistent } } }\n", vec![], "inline fragment on the enclosing interface (skipped before commit 762f951)"),
         (S1, "query Q { i { ...F } }\nfragment F on I { nonexistent @nope ...Missing }\n", vec![], "spread of a fragment on the enclosing interface (skipped before commit 762f951)"),
-        (S1, "query Q { a { a(j: {k: $nope}) } }\n", vec!["variable-inside-custom-scalar-literal-unchecked"], "variables inside custom scalar literals are not looked at"),
-        (S1, "query Q { a { a(x: 1, x: \"s\") } }\n", vec!["duplicate-argument-value-unchecked"], "only the first of two values given for one argument is type-checked"),
+        (S1, "query Q { a { a(j: {k: $nope}) } }\n", vec![], "an undefined variable inside a custom scalar literal (not looked at before commit 49e8e28)"),
+        (S1, "query Q { a { a(x: 1, x: \"s\") } }\n", vec![], "the second value given for an argument is ill-typed (only the first was checked before commit 7d19234)"),
         // behaviour fixed by the fix: commits (regressions would show as disagreement / property failure)
         (S1, "query Q { a { a(i: {c: 1}) } }\n", vec![], "unknown input field"),
         (S1, "query Q { a { a(f: 1, ids: 5, i: {l: {a: 1}}) } }\n", vec![], "int for float, single for list"),
@@ -877,8 +921,8 @@ fn corpus() -> Vec<(&'static str, &'static str, Vec<&'static str>, &'static str)
         (S1, "query Q($l: [Int!]!, $i: Int, $e: E = A, $in: In) { a { a(x: $i, ids: $l, e: $e, i: $in, q: {must: $i}) b: a(i: {l: [$in, {a: $i}]}, ids: [$i]) } }\n", vec![], "variable usages"),
         (S1, "query Q($l: [ID!], $f: Float = 1, $b: Boolean!, $in: In!) @once { i { id ... on J { j ...FJ } ... on A @include(if: $b) { a(x: 2, f: $f, ids: $l, e: A, i: {a: 1, l: [{b: 2}, $in]}, j: {any: [1]}) } ...FI } u { __typename ... on A { id } ... on I { id } ... on V { ... on B { b } } } k: n(x: 1) @skip(if: false) @tag(name: \"t\") @tag(name: \"u\") }\nfragment FJ on J @tag(name: \"f\") { self { id } }\nfragment FI on B { b ...FJ }\n", vec![], "a valid document using most features"),
         // spec-valid documents the implementation rejects (C04 known findings)
-        (S1, "query Q($v: Int) { a { a(x: $v) } }\n", vec!["c04:variable-at-position-with-default-rejected"], "nullable variable at a non-null argument that has a default value"),
-        (S1, "subscription S { s s }\n", vec!["c04:subscription-same-root-field-twice-rejected"], "the same root field twice is one response key"),
+        (S1, "query Q($v: Int) { a { a(x: $v) } }\n", vec![], "nullable variable at a non-null argument that has a default value (rejected before commit aff743c)"),
+        (S1, "subscription S { s s }\n", vec![], "the same root field twice is one response key (rejected before commit a3d3d08)"),
         (S1, "query Q { a: n(x: 2147483647) b: n(x: -2147483648) c: n(x: 2147483648) d: n(x: -2147483649) a2: a { a(f: 2147483648, ids: [99999999999]) } }\n", vec![], "Int literals at and beyond the signed 32-bit range (Float and ID take any integer)"),
         // Field Selection Merging is not implemented by check (and not in C03's rule list): accepted, `generate` then panics (C08)
         (S1, "query Q { x: i { id } x: a { id } }\n", vec![], "two different fields under one response key (not checked: Field Selection Merging)"),
@@ -888,6 +932,11 @@ fn corpus() -> Vec<(&'static str, &'static str, Vec<&'static str>, &'static str)
         // Operation Name Uniqueness (5.2.1.1) is per document: a query and a subscription may not share a name
         (S1, "query A { a { id } }\nfragment F on A { id }\nsubscription A { s }\n", vec![], "a query and a subscription with one name, a fragment in between"),
         (S1, "subscription A { s }\nquery A { a { id } }\n", vec![], "a subscription and a query with one name"),
+        // subscriptions: response keys are counted, not selections (commit a3d3d08)
+        (S1, "subscription S { s ...F }\nfragment F on Subscription { s ... { s } }\n", vec![], "one response key through a fragment and an inline fragment"),
+        (S1, "subscription S { s t: s }\n", vec![], "two response keys for one field"),
+        // unspread fragments are validated on their own, variables excepted (commit c67e45e)
+        (S1, "query Q { a { id } }\nfragment U on A { a(x: $nope, zz: 1) ...V }\nfragment V on A { ...U nonexistent }\nfragment W on A { a(i: {a: \"s\"}, j: [$x]) }\n", vec![], "unspread fragments: argument errors, a cycle, an unknown field; variables are not reported"),
     ]
 }
 
@@ -950,10 +999,15 @@ fn main() {
         let ts = to_type_system(&tsdoc);
         for k in 0..n_valid {
             let cfg = DocCfg { coercions: k % 2 == 1, shorthand: k % 3 == 0, ..DocCfg::default() };
-            let d = gen_doc(&mut rng, &s, &cfg);
+            let mut d = gen_doc(&mut rng, &s, &cfg);
             for f in &d.features { *out.features.entry(f.to_string()).or_insert(0) += 1; }
+            // valid forms that used to be rejected: a subscription's root field selected twice (one response key), a nullable
+            // variable at a non-null position that has a default value
+            let mut forms: Vec<&str> = vec![];
+            if k % 2 == 0 && inject(&mut rng, &s, &mut d, "subscription-same-key-twice").is_some() { forms.push("subscription-same-key-twice"); *out.features.entry("subscription-same-key-twice".into()).or_insert(0) += 1; }
+            if inject(&mut rng, &s, &mut d, "var-relax-at-default").is_some() { forms.push("var-relax-at-default"); *out.features.entry("var-relax-at-default".into()).or_insert(0) += 1; }
             let text = d.render();
-            run_case(&mut out, si, &sdl, &ts, &text, json!({"stream": "valid", "features": d.features, "classes": []}));
+            run_case(&mut out, si, &sdl, &ts, &text, json!({"stream": "valid", "features": d.features, "valid_forms": forms, "classes": []}));
         }
         for k in 0..n_mut {
             let cfg = DocCfg { coercions: k % 2 == 1, ..DocCfg::default() };
